@@ -2,7 +2,10 @@
 
 package dicescript
 
-import "math"
+import (
+	"math"
+	"strconv"
+)
 
 func float64frombits(b uint64) float64 { return math.Float64frombits(b) }
 
@@ -20,3 +23,7 @@ func vIteInt64(c bool, x, y int64) int64 {
 // vSetMapOrder: engine-only control of Go map iteration order (0 forward,
 // 1 reversed insertion order); natively Go randomises by itself.
 func vSetMapOrder(k int) {}
+
+// vJSONInt renders x as a JSON number (the engine uses a sentinel literal
+// that stands for the symbolic value).
+func vJSONInt(x int64) string { return strconv.FormatInt(x, 10) }
